@@ -305,6 +305,49 @@ fn special_sweep(r: &mut Rng, t: i32) -> Vec<AShape> {
     out
 }
 
+/// C18 on large shapes: only the counts cross to TLC (the size algebra needs nothing else)
+fn big_size_events(tr: &mut Trace, c: &Conc, r: &mut Rng, t: i32, n: usize) {
+    for _ in 0..n {
+        let np = match family(t) {
+            "point" | "multipoint" => 1,
+            _ => 1 + r.below(2000),
+        };
+        let total = if family(t) == "point" { 1 } else { np * 2 + r.below(100_000) };
+        // distribute `total` points over np parts (each at least 2)
+        let mut lens = vec![2usize; np];
+        if family(t) == "point" {
+            lens = vec![1];
+        } else {
+            let mut left = total.saturating_sub(2 * np);
+            for l in lens.iter_mut() {
+                let take = if left == 0 { 0 } else { r.below(left.min(400) + 1) };
+                *l += take;
+                left -= take;
+            }
+            lens[0] += left;
+        }
+        let p: APoint = [1, 2, if stores_z(t) { 1 } else { 0 }, if stores_m(t) { 2 } else { 0 }];
+        let a = AShape { t, parts: lens.iter().map(|l| vec![p; *l]).collect(), kinds: match family(t) { "polygon" => vec![0; np], "multipatch" => (0..np).map(|i| (i % 6) as i32).collect(), _ => vec![] }, bbox: [0; 8] };
+        let s = match guarded(|| build(c, &a)) { Ok(s) => s, Err(_) => continue };
+        let o = abstract_shape(c, &s);     // counts after the constructors (rings may have been closed)
+        let (announced, emitted) = with_inner!(&s, x => {
+            let mut v: Vec<u8> = vec![];
+            let ok = record::WritableShape::write_to(x, &mut v).is_ok();
+            (record::WritableShape::size_in_bytes(x) as i64, if ok { v.len() as i64 } else { -1 })
+        }, (0, 0));
+        // the content-length field of the record the real writer emits
+        let dest = LogDest::new();
+        {
+            let mut w = ShapeWriter::new(dest.clone());
+            let _ = write_all_shapes(&mut w, std::slice::from_ref(&s));
+        }
+        let b = dest.bytes();
+        let words = if b.len() >= 108 { i32::from_be_bytes([b[104], b[105], b[106], b[107]]) as i64 } else { -1 };
+        tr.run(json!({"ev": "bigsize", "t": t, "nparts": o.parts.len(), "npoints": o.npoints(), "announced": announced,
+                      "emitted": emitted, "words": words, "fileLen": b.len()}));
+    }
+}
+
 pub fn run(a: &Args) {
     let prop = a.get("prop", "all");
     let out = PathBuf::from(a.get("out", "work/codec"));
@@ -363,6 +406,10 @@ pub fn run(a: &Args) {
                     let other = gen_shape(&mut r, t, &GenCfg::small());
                     run_case(&mut tr, &c, &prop, t, &[other, s], &tmp.0, id);
                 }
+            }
+            if prop == "C18" || prop == "all" {
+                big_size_events(&mut tr, &c, &mut r, t, a.num("bigsizes", 3) as usize);
+                id += a.num("bigsizes", 3) as usize;
             }
             for _ in 0..large {
                 let n = 1 + r.below(3);
